@@ -11,7 +11,7 @@ from __future__ import annotations
 import ast
 import re
 import string
-from typing import Dict, List, Optional, Set, Tuple
+from typing import Any, Dict, List, Optional, Set, Tuple
 
 from sa.core import AnalysisError, Finding, Program, Report, dotted, program, src, walk_no_nested
 
@@ -156,89 +156,7 @@ def run(rep: Report, tier: str) -> None:
             rep.add(Finding("R26.5", key, "src/vtlengine/Exceptions/messages.py", 1, "centralised_messages", bad))
 
     # R26.1-3 ----------------------------------------------------------------------------
-    per_kind = {k: 0 for k in CODED}
-    nsites = 0
-    for m, f, call in iter_calls(P):
-        q = P.resolve_expr(m, call.func)
-        if q not in classes:
-            continue
-        kind = classes[q]
-        nsites += 1
-        per_kind[kind] += 1
-        fname = site_name(m, f, call)
-        kw = {k.arg: k.value for k in call.keywords if k.arg is not None}
-        splats = [k.value for k in call.keywords if k.arg is None]
-        code_node: Optional[ast.AST] = None
-        if "code" in kw:
-            code_node = kw["code"]
-        elif kind == "InputValidationException":
-            if len(call.args) >= 4:
-                code_node = call.args[3]
-        elif call.args:
-            code_node = call.args[0]
-        if any(isinstance(a, ast.Starred) for a in call.args):
-            raise AnalysisError(f"{m.rel}:{call.lineno} *args in coded exception call not modelled")
-
-        if kind == "InputValidationException" and code_node is None:
-            # uncoded message form; R26.3: the message must not be a code
-            first = call.args[0] if call.args else kw.get("message")
-            vals = P.const_values(f, m, first) if first is not None else None
-            looks_code = vals is not None and any(isinstance(v, str) and CODE_RE.match(v) for v in vals)
-            named = set(kw) - RESERVED
-            rep.instance("R26.3", f"{fname}/{src(first)[:40] if first is not None else ''}",
-                         nontrivial=bool(looks_code or named),
-                         sample={"site": f"{m.rel}:{call.lineno}", "call": src(call)[:120]})
-            if looks_code:
-                rep.add(Finding("R26.3", f"R26.3/{fname}/{sorted(vals)[0]}", m.rel, call.lineno, fname,
-                                f"InputValidationException({src(first)}, …): the code is bound to `message`; "
-                                f"nothing is rendered and the error carries no code"))
-            continue
-        if code_node is None:
-            rep.add(Finding("R26.1", f"R26.1/{fname}/<no-code>", m.rel, call.lineno, fname,
-                            f"{kind}() constructed without a code argument: {src(call)[:100]}"))
-            continue
-        codes = P.const_values(f, m, code_node)
-        if codes is None or not all(isinstance(c, str) for c in codes) or not codes:
-            raise AnalysisError(f"{m.rel}:{call.lineno} {fname}: code argument `{src(code_node)}` does not resolve "
-                                f"to a finite set of strings")
-        supplied = set(kw) - RESERVED
-        for sp in splats:
-            if isinstance(sp, ast.Name) and f is not None:
-                # **name: the name's single local definition must be a dict literal with constant keys
-                defs_ = [n_.value for n_ in walk_no_nested(f.node) if isinstance(n_, (ast.Assign, ast.AnnAssign)) and getattr(n_, "value", None) is not None
-                         and any(isinstance(t_, ast.Name) and t_.id == sp.id for t_ in (n_.targets if isinstance(n_, ast.Assign) else [n_.target]))]
-                if len(defs_) == 1:
-                    sp = defs_[0]
-            if isinstance(sp, ast.Dict) and all(isinstance(k, ast.Constant) for k in sp.keys):
-                keys_ = {k.value for k in sp.keys}  # type: ignore[union-attr]
-                dup_ = sorted((keys_ & set(kw)) | {k_ for k_ in keys_ if sum(1 for s2 in splats if isinstance(s2, ast.Dict) and any(isinstance(q, ast.Constant) and q.value == k_ for q in s2.keys)) > 1})
-                if dup_:
-                    rep.add(Finding("R26.2", f"R26.2/{fname}/duplicate-keyword/{','.join(map(str, dup_))}", m.rel, call.lineno, fname,
-                                    f"{kind}(…) receives the keyword(s) {dup_} twice (explicitly and through the ** dictionary): Python raises TypeError "
-                                    f"`got multiple values for keyword argument` before the VTL error is built"))
-                supplied |= keys_
-            else:
-                raise AnalysisError(f"{m.rel}:{call.lineno} {fname}: **{src(sp)} splat in coded exception call "
-                                    f"is not a dict literal")
-        for code in sorted(codes):
-            rep.instance("R26.1", f"{fname}/{code}", nontrivial=True,
-                         sample={"site": f"{m.rel}:{call.lineno}", "kind": kind, "code": code,
-                                 "resolved_from": src(code_node)[:60]})
-            if code not in cat:
-                rep.add(Finding("R26.1", f"R26.1/{fname}/{code}", m.rel, call.lineno, fname,
-                                f"{kind} code {code!r} is not in centralised_messages → KeyError on construction"))
-                continue
-            need = ph.get(code)
-            if need is None:
-                continue
-            rep.instance("R26.2", f"{fname}/{code}/{','.join(sorted(supplied))}", nontrivial=bool(need),
-                         sample={"site": f"{m.rel}:{call.lineno}", "code": code, "placeholders": sorted(need),
-                                 "supplied": sorted(supplied)} if need else None)
-            missing = need - supplied
-            if missing:
-                rep.add(Finding("R26.2", f"R26.2/{fname}/{code}/{','.join(sorted(missing))}", m.rel, call.lineno, fname,
-                                f"{kind}({code!r}) does not supply placeholder(s) {sorted(missing)} of "
-                                f"{message_of(cat[code])!r} → KeyError in str.format"))
+    nsites, per_kind = coded_sites(P, rep, cat, classes, ph, ("R26.1", "R26.2", "R26.3"))
 
     # R26.4 ------------------------------------------------------------------------------
     for k in CODED:
@@ -285,3 +203,113 @@ def run(rep: Report, tier: str) -> None:
                        "str.format semantics: unknown extra keywords are ignored, missing ones raise KeyError"]
     rep.floor("coded exception constructor sites", nsites, 400)
     rep.floor("catalogue codes", len(cat), 230)
+
+
+def placeholder_table(cat: Dict[str, Any]) -> Dict[str, Set[str]]:
+    out: Dict[str, Set[str]] = {}
+    for code, entry in cat.items():
+        msg = message_of(entry)
+        if isinstance(msg, str):
+            try:
+                out[code] = placeholders(msg)[0]
+            except ValueError:
+                pass
+    return out
+
+
+def coded_sites(P: Program, rep: Report, cat: Dict[str, Any], classes: Dict[str, str], ph: Dict[str, Set[str]], rules: Tuple[str, str, str],
+                prefixes: Optional[Tuple[str, ...]] = None):
+    """Every constructor call of a coded VTL exception: the code resolves to catalogued codes, every placeholder of the message is supplied.
+    Shared with C23 (restricted to the AST constructor modules: a raise site that cannot build its error aborts create_ast with a KeyError)."""
+    r1, r2, r3 = rules
+    per_kind = {k: 0 for k in CODED}
+    nsites = 0
+    for m, f, call in iter_calls(P):
+        q = P.resolve_expr(m, call.func)
+        if q not in classes or (prefixes is not None and not m.name.startswith(prefixes)):
+            continue
+        kind = classes[q]
+        nsites += 1
+        per_kind[kind] += 1
+        fname = site_name(m, f, call)
+        kw = {k.arg: k.value for k in call.keywords if k.arg is not None}
+        splats = [k.value for k in call.keywords if k.arg is None]
+        code_node: Optional[ast.AST] = None
+        if "code" in kw:
+            code_node = kw["code"]
+        elif kind == "InputValidationException":
+            if len(call.args) >= 4:
+                code_node = call.args[3]
+        elif call.args:
+            code_node = call.args[0]
+        if any(isinstance(a, ast.Starred) for a in call.args):
+            raise AnalysisError(f"{m.rel}:{call.lineno} *args in coded exception call not modelled")
+
+        if kind == "InputValidationException" and code_node is None:
+            # uncoded message form; R26.3: the message must not be a code
+            first = call.args[0] if call.args else kw.get("message")
+            vals = P.const_values(f, m, first) if first is not None else None
+            looks_code = vals is not None and any(isinstance(v, str) and CODE_RE.match(v) for v in vals)
+            named = set(kw) - RESERVED
+            rep.instance(r3, f"{fname}/{src(first)[:40] if first is not None else ''}",
+                         nontrivial=bool(looks_code or named),
+                         sample={"site": f"{m.rel}:{call.lineno}", "call": src(call)[:120]})
+            if looks_code:
+                rep.add(Finding(r3, f"{r3}/{fname}/{sorted(vals)[0]}", m.rel, call.lineno, fname,
+                                f"InputValidationException({src(first)}, …): the code is bound to `message`; "
+                                f"nothing is rendered and the error carries no code"))
+            continue
+        if code_node is None:
+            rep.add(Finding(r1, f"{r1}/{fname}/<no-code>", m.rel, call.lineno, fname,
+                            f"{kind}() constructed without a code argument: {src(call)[:100]}"))
+            continue
+        codes = P.const_values(f, m, code_node)
+        if codes is None or not all(isinstance(c, str) for c in codes) or not codes:
+            raise AnalysisError(f"{m.rel}:{call.lineno} {fname}: code argument `{src(code_node)}` does not resolve "
+                                f"to a finite set of strings")
+        supplied = set(kw) - RESERVED
+        for sp in splats:
+            if isinstance(sp, ast.Name) and f is not None:
+                # **name: the name's single local definition must be a dict literal with constant keys
+                defs_ = [n_.value for n_ in walk_no_nested(f.node) if isinstance(n_, (ast.Assign, ast.AnnAssign)) and getattr(n_, "value", None) is not None
+                         and any(isinstance(t_, ast.Name) and t_.id == sp.id for t_ in (n_.targets if isinstance(n_, ast.Assign) else [n_.target]))]
+                if len(defs_) == 1:
+                    sp = defs_[0]
+            if isinstance(sp, ast.Subscript) and isinstance(sp.value, ast.Name) and sp.value.id in m.assigns and isinstance(m.assigns[sp.value.id], ast.Dict) \
+                    and m.assigns[sp.value.id].values and all(isinstance(v_, ast.Dict) and all(isinstance(k_, ast.Constant) for k_ in v_.keys) for v_ in m.assigns[sp.value.id].values):
+                # **TABLE[key] over a module-level table of dict literals: the keywords every row supplies
+                rows_ = [{k_.value for k_ in v_.keys} for v_ in m.assigns[sp.value.id].values]  # type: ignore[union-attr]
+                common_ = set.intersection(*rows_)
+                sp = ast.Dict(keys=[ast.Constant(value=k_) for k_ in sorted(common_)], values=[ast.Constant(value=None) for _ in common_])
+            if isinstance(sp, ast.Dict) and all(isinstance(k, ast.Constant) for k in sp.keys):
+                keys_ = {k.value for k in sp.keys}  # type: ignore[union-attr]
+                dup_ = sorted((keys_ & set(kw)) | {k_ for k_ in keys_ if sum(1 for s2 in splats if isinstance(s2, ast.Dict) and any(isinstance(q, ast.Constant) and q.value == k_ for q in s2.keys)) > 1})
+                if dup_:
+                    rep.add(Finding(r2, f"{r2}/{fname}/duplicate-keyword/{','.join(map(str, dup_))}", m.rel, call.lineno, fname,
+                                    f"{kind}(…) receives the keyword(s) {dup_} twice (explicitly and through the ** dictionary): Python raises TypeError "
+                                    f"`got multiple values for keyword argument` before the VTL error is built"))
+                supplied |= keys_
+            else:
+                raise AnalysisError(f"{m.rel}:{call.lineno} {fname}: **{src(sp)} splat in coded exception call "
+                                    f"is not a dict literal")
+        for code in sorted(codes):
+            rep.instance(r1, f"{fname}/{code}", nontrivial=True,
+                         sample={"site": f"{m.rel}:{call.lineno}", "kind": kind, "code": code,
+                                 "resolved_from": src(code_node)[:60]})
+            if code not in cat:
+                rep.add(Finding(r1, f"{r1}/{fname}/{code}", m.rel, call.lineno, fname,
+                                f"{kind} code {code!r} is not in centralised_messages → KeyError on construction"))
+                continue
+            need = ph.get(code)
+            if need is None:
+                continue
+            rep.instance(r2, f"{fname}/{code}/{','.join(sorted(supplied))}", nontrivial=bool(need),
+                         sample={"site": f"{m.rel}:{call.lineno}", "code": code, "placeholders": sorted(need),
+                                 "supplied": sorted(supplied)} if need else None)
+            missing = need - supplied
+            if missing:
+                rep.add(Finding(r2, f"{r2}/{fname}/{code}/{','.join(sorted(missing))}", m.rel, call.lineno, fname,
+                                f"{kind}({code!r}) does not supply placeholder(s) {sorted(missing)} of "
+                                f"{message_of(cat[code])!r} → KeyError in str.format"))
+
+    return nsites, per_kind
